@@ -161,7 +161,10 @@ pub fn finish(report: Report) -> i32 {
         }
     }
 
-    let replay_dir = Path::new(VERIF).join("replays").join(&report.property);
+    // BSMC_OUT redirects evidence and replays (exploratory background runs must not overwrite
+    // the evidence of the registered commands)
+    let out_root = std::env::var("BSMC_OUT").unwrap_or_else(|_| VERIF.to_string());
+    let replay_dir = Path::new(&out_root).join("replays").join(&report.property);
     let _ = std::fs::create_dir_all(&replay_dir);
     let mut lines = vec![];
     for (i, (part, v)) in new_violations.iter().enumerate() {
@@ -264,7 +267,7 @@ pub fn finish(report: Report) -> i32 {
         "wall_s": report.started.elapsed().as_secs_f64(),
         "violations": new_violations.len(),
     });
-    let evdir = Path::new(VERIF).join("evidence");
+    let evdir = Path::new(&out_root).join("evidence");
     let _ = std::fs::create_dir_all(&evdir);
     let tmp = evdir.join(format!("{}.json.tmp", report.property));
     std::fs::write(&tmp, serde_json::to_string_pretty(&ev).unwrap()).expect("write evidence");
